@@ -115,6 +115,9 @@ def handle (line : String) : String :=
     -- every request answered 200, and exactly one handler entry per answered request
     let good := impl == [ok] && sent == ok
     out id good (b2s good) "ct-handler-entries" "-" ok
+  | ["sp", id, vol] =>
+    -- the other clients' failing uploads (over the limit in two frames / cut off) were all refused
+    out id (impl == ["1"]) (b2s (impl == ["1"])) s!"sp-spoilers-{vol}" "-" "1"
   | "sv" :: _ => handleSv "sv" inp impl
   | "pl" :: _ => handleSv "pl" inp impl
   | "cc" :: _ => handleSv "cc" inp impl
